@@ -176,10 +176,37 @@ func (tx *Tx) SMoveByOneBucket(bucket string, key1, key2, item []byte) (bool, er
 	}
 
 	if set, ok := tx.db.SetIdx[bucket]; ok {
-		return set.SMove(string(key1), string(key2), item)
+		return tx.sMove(set, bucket, key1, set, bucket, key2, item)
 	}
 
 	return false, ErrBucket
+}
+
+// sMove records the move as two writes of the transaction (remove from the source,
+// add to the destination), so that it is applied at Commit, dropped by Rollback,
+// refused in a read-only transaction and rebuilt on Open like every other write.
+func (tx *Tx) sMove(set1 *set.Set, bucket1 string, key1 []byte, set2 *set.Set, bucket2 string, key2, item []byte) (bool, error) {
+	if !set1.SHasKey(string(key1)) {
+		return false, ErrNotFoundKeyInBucket(bucket1, key1)
+	}
+
+	if !set2.SHasKey(string(key2)) {
+		return false, ErrNotFoundKeyInBucket(bucket2, key2)
+	}
+
+	if !set1.SIsMember(string(key1), item) {
+		return false, nil
+	}
+
+	if err := tx.sPut(bucket1, key1, DataDeleteFlag, item); err != nil {
+		return false, err
+	}
+
+	if err := tx.sPut(bucket2, key2, DataSetFlag, item); err != nil {
+		return false, err
+	}
+
+	return true, nil
 }
 
 // SMoveByTwoBuckets moves member from the set at source to the set at destination in two buckets.
@@ -201,21 +228,7 @@ func (tx *Tx) SMoveByTwoBuckets(bucket1 string, key1 []byte, bucket2 string, key
 		return false, ErrBucketAndKey(bucket2, key1)
 	}
 
-	if !set1.SHasKey(string(key1)) {
-		return false, ErrNotFoundKeyInBucket(bucket1, key1)
-	}
-
-	if !set2.SHasKey(string(key2)) {
-		return false, ErrNotFoundKeyInBucket(bucket2, key2)
-	}
-
-	if _, ok := set2.M[string(key2)][string(item)]; !ok {
-		set2.SAdd(string(key2), item)
-	}
-
-	set1.SRem(string(key1), item)
-
-	return true, nil
+	return tx.sMove(set1, bucket1, key1, set2, bucket2, key2, item)
 }
 
 // SUnionByOneBucket the members of the set resulting from the union of all the given sets in one bucket.
